@@ -32,6 +32,10 @@ func UnifyTypeExpr(xs []ast.BaseTerm, ys []ast.BaseTerm) (map[ast.Variable]ast.B
 }
 
 func (u *unionFindFun) unifyFunctional(xs []ast.BaseTerm, ys []ast.BaseTerm) error {
+	if len(xs) != len(ys) {
+		// Variadic type constructors (fn:Union, fn:Struct, ...) carry the same symbol at any length.
+		return fmt.Errorf("not of equal size")
+	}
 	for i, x := range xs {
 		y := ys[i]
 		xApply, xOk := x.(ast.ApplyFn)
